@@ -1,12 +1,13 @@
-\* implementation-shaped variant: the getter with units drops `rev` (pinned ChemkinReaction.get_H_act). EXPECTED TO BE REJECTED: ClampRefines
+\* second-use histories: a BEP is built, evaluated, up to 2 public attributes are assigned (descriptor across
+\* and within the families, slope, intercept, another reaction) and it is evaluated again; required behaviour
 SPECIFICATION Spec
 CONSTANTS
-  Vals <- MCVals
+  Vals <- MCValsSmall
   Slopes2 <- MCSlopes2
   Icpts <- MCIcpts
-  Variant = "droprev"
-  Kinds = {"plain"}
-  MaxEdits = 0
+  Variant = "required"
+  Kinds = {"bep"}
+  MaxEdits = 2
 INVARIANT TypeOK
 INVARIANT ClampRefines
 INVARIANT NotBelowMinimum
